@@ -21,6 +21,7 @@ class Rel8Domain:
     def __init__(self, prog):
         self.prog = prog
         self.at_site = []       # (node, state)
+        self.at_exit = []       # (successful return, state)
         self.ce = ConstEval(prog)
 
     def copy(self, s): return s
@@ -58,6 +59,9 @@ class Rel8Domain:
                         out.add(tuple(t))
                 return frozenset(out)
             if _member(l, "cons"):
+                c = self.ce.try_eval(ks[1])
+                if e0.get("opcode") == "&=" and c is not None and c & (c + 1) == 0:
+                    return frozenset(((lo, hi) if hi <= c else (0, c)) + (sh, lg, cf) for (lo, hi, sh, lg, cf) in s)
                 return frozenset((0, U64, t[2], t[3], t[4]) for t in s)
             return self.eval(ks[1], s)
         for c in ks:
@@ -67,6 +71,10 @@ class Rel8Domain:
     def assume(self, e, truth, s):
         e0 = strip(e)
         k = e0.get("kind")
+        if k == "MemberExpr" and e0.get("name") == "imm" and not truth:
+            # no immediate operand: the constant field still holds its zero initialiser
+            out = frozenset((0, 0, sh, lg, cf) for (lo, hi, sh, lg, cf) in s if lo <= 0)
+            return out or None
         if k == "MemberExpr" and e0.get("name") in ("is_short", "is_long"):
             idx = 2 if e0["name"] == "is_short" else 3
             out = frozenset(t for t in s if bool(t[idx]) == truth)
@@ -93,6 +101,10 @@ class Rel8Domain:
             if ".type ==" in txt and "CONTROL_FLOW" in txt:
                 if truth:
                     return frozenset((lo, hi, sh, lg, 1) for (lo, hi, sh, lg, cf) in s)
+                # not CONTROL_FLOW: contradicts paths on which the row was already seen to be one
+                # (the row reached by `key += is_short` has the same type: PAIR/type and SUCC check that)
+                out = frozenset(t for t in s if not t[4])
+                return out or None
         return s
 
     def _split(self, lo, hi, op, c):
@@ -116,10 +128,11 @@ class Rel8Domain:
         return [(lo, hi)]
 
     def ret(self, n, s):
-        pass
+        if kids(n) and self.ce.try_eval(strip(kids(n)[0], casts=True)) == 0:
+            self.at_exit.append((n, s))
 
 
-def rel8_rule(chk, prog, rule="REL8"):
+def rel8_rule(chk, prog, rule="REL8", short_rows_without_ib=()):
     # the function that adds the short flag to the key
     site_fn = None
     for fn, f in sorted(prog.lib_functions().items()):
@@ -167,3 +180,23 @@ def rel8_rule(chk, prog, rule="REL8"):
     chk.require(not longshort, rule, rule + "/long", loc_str(node),
                 "the `long` keyword excludes the rel8 row", "with `long`, the short flag is still set for cons in %s" %
                 ", ".join("[%#x,%#x]" % t for t in longshort[:3]))
+
+    # REL32: a displacement leaves the function as a 32-bit quantity (the emitter writes every significant byte)
+    wide_long, wide_short = [], []
+    allex = frozenset().union(*[s for _, s in dom.at_exit]) if dom.at_exit else frozenset()
+    NEG31 = (1 << 64) - (1 << 31)      # displacements in the property's domain -2^31..-1, as 64-bit values
+    for (lo, hi, sh, lg, cf) in sorted(allex):
+        if cf and hi >= NEG31:
+            (wide_short if sh else wide_long).append((max(lo, NEG31), hi))
+    where = loc_str(dom.at_exit[-1][0]) if dom.at_exit else loc_str(f)
+    chk.floor("successful returns of the line parser", len(dom.at_exit), 1)
+    chk.require(not wide_long, rule, rule + "/rel32-width", where,
+                "a negative rel32 displacement (-2^31..-1 as a 64-bit value) is reduced to 32 bits before it is emitted",
+                "cons in %s reaches the encoder with the long form" % ", ".join("[%#x,%#x]" % t for t in wide_long[:2]))
+    if wide_short:
+        chk.require(not short_rows_without_ib, rule, rule + "/short-width", where,
+                    "with the short flag set a displacement wider than 32 bits is only kept where the selected row truncates it (imm8 marker)",
+                    "cons in %s reaches %s, whose row after the increment has no imm8 marker and is emitted in full"
+                    % (", ".join("[%#x,%#x]" % t for t in wide_short[:2]), ", ".join(short_rows_without_ib)))
+    else:
+        chk.ok(rule, rule + "/short-width", where, "no displacement wider than 32 bits reaches the encoder with the short flag set")
